@@ -43,6 +43,14 @@ Fixpoint has_dup (l : list nat) : bool :=
   | x :: t => memb x t || has_dup t
   end.
 
+Fixpoint insert_by (key : nat -> nat) (x : nat) (l : list nat) : list nat :=
+  match l with
+  | [] => [x]
+  | y :: t => if key x <? key y then x :: y :: t else y :: insert_by key x t
+  end.
+(* Python sorted(l) *)
+Definition sort_nat (l : list nat) : list nat := fold_right (insert_by (fun x => x)) [] l.
+
 (* -------------------------------------------------------------------------------------- *)
 (* BaseGaussianState                                                                      *)
 Section Gauss.
@@ -109,15 +117,19 @@ Section Gauss.
     | IndexErr => IndexErr
     end.
 
-  (* parity_expectation(modes) AS CODED: the Gaussian integral is evaluated on the FULL means
-     and covariance (self.means(), self.cov()); only the prefactor (hbar/2)^len(modes) looks at
-     `modes`.  [G m v] stands for exp(-mu.V^-1.mu/2)/sqrt(det V) of the vector/matrix handed
-     to numpy (an oracle: numpy evaluates it; the model records WHICH data it is applied to). *)
+  (* parity_expectation(modes) (after fix 5603fbf): duplicates rejected, then the Gaussian integral
+     is evaluated on reduced_gaussian(sorted(modes)).  [G m v] stands for
+     exp(-m.V^-1.m/2)/sqrt(det V) of the vector/matrix handed to numpy (an oracle: numpy evaluates
+     it; the model records WHICH data it is applied to). *)
   Fixpoint kpow (x : K) (e : nat) : K := match e with O => k1 | S e' => x * kpow x e' end.
 
-  Definition parity_coded (G : list K -> list (list K) -> K) (hb2 : K) (modes : list nat) : res K :=
+  Definition parity_expectation (G : list K -> list (list K) -> K) (hb2 : K) (modes : list nat) : res K :=
     if has_dup modes then ValueErr
-    else Ok (kpow hb2 (length modes) * G (sel_mu (seq 0 (2 * n))) (sel_cov (seq 0 (2 * n)))).
+    else match reduced_gaussian (sort_nat modes) with
+         | Ok (m, v) => Ok (kpow hb2 (length modes) * G m v)
+         | ValueErr => ValueErr
+         | IndexErr => IndexErr
+         end.
 
   (* what the property asks for: the same formula on the reduced state of `modes` *)
   Definition parity_spec (G : list K -> list (list K) -> K) (hb2 : K) (modes : list nat) : K :=
@@ -299,11 +311,6 @@ End Fock.
    kept modes in ascending order; then
      mode_permutation = argsort(modes); index_permutation = [2x+i for x in mode_permutation for i in (0,1)]
      red_state = transpose(red_state, argsort(index_permutation))                               *)
-Fixpoint insert_by (key : nat -> nat) (x : nat) (l : list nat) : list nat :=
-  match l with
-  | [] => [x]
-  | y :: t => if key x <? key y then x :: y :: t else y :: insert_by key x t
-  end.
 (* stable argsort: indices 0..len-1 ordered by key, ties by index *)
 Definition argsort (l : list nat) : list nat :=
   fold_right (insert_by (fun i => nth i l 0)) [] (seq 0 (length l)).
@@ -315,7 +322,6 @@ Definition state_axes (modes : list nat) : list nat :=
   else argsort ip.
 
 (* bosonic: ind = np.sort(np.concatenate([2 modes, 2 modes + 1])) *)
-Definition sort_nat (l : list nat) : list nat := fold_right (insert_by (fun x => x)) [] l.
 Definition bos_ind (modes : list nat) : list nat :=
   sort_nat (map (fun m => 2 * m) modes ++ map (fun m => 2 * m + 1) modes).
 
